@@ -24,6 +24,9 @@ for _n, _c, _tier in ((3, 2, 'thorough'), (4, 2, 'thorough')):
     GROUPS.append(dict(_S, cls='B', name='softclip_sign_n%dc%d' % (_n, _c), entry='h_softclip_sign', unwind=_n * _c + 2, timeout=3600, mem_gb=16, tier=_tier,
         defines=['-U__SSE__', '-DVERIF_N=%d' % _n, '-DVERIF_C=%d' % _c], bounds='N=%d x C=%d, arbitrary finite floats, memory in [-1,1]' % (_n, _c),
         what='no sample changes sign (one run, ghost index)'))
+GROUPS.append(dict(_S, cls='B', name='softclip_indep_witness', entry='h_softclip_indep_witness', unwind=10, timeout=1800, mem_gb=12, defines=['-U__SSE__'],
+    bounds='4 samples x 2 channels; channel 1 fixed to a witness that takes the frame-start ramp path, channel 0 arbitrary in [-1,1]',
+    what='independence of a clipped channel from the other channel, on a concrete witness'))
 for _nm, _d in (('plc', ['-DVERIF_GAIN_PLC=1']), ('frame', [])):
     for (_ch, _fr) in ((2, 2), (1, 1)):
         GROUPS.append(dict(name='decode_gain_%s_c%df%d' % (_nm, _ch, _fr), cls='B', tu='C19_decode_gain.c', entry='h_decode_gain', dfcc=False, canary='real', expect_canaries=2,
